@@ -32,6 +32,8 @@ def make(cfg):
     target = smcrun.Target(cfg["dims"], center=cfg["like_center"], width=cfg["like_width"], half=cfg["half"],
                            like_cut=cfg.get("like_cut"))
     target.nan_outside = cfg.get("nan_outside", False)
+    if cfg.get("memo"):
+        target.memo = {}          # an expensive model that caches what it returned for a batch of points
     full = {**smcrun.DEFAULT, **cfg}
     if cfg["sampler"] in ("minipcn_smc", "emcee_smc"):
         s, flow = smcrun.make_sampler(full, target)
@@ -88,6 +90,7 @@ def gen_case(r, i, tier):
     cfg["z"] = z.tolist()
     cfg["beta"] = float(r.choice([1.0, 1.0, r.uniform(1e-3, 1), 10 ** r.uniform(-6, -1)]))
     cfg["fit_seed"] = int(r.integers(1 << 30))
+    cfg["memo"] = bool(i % 4 == 1)
     return cfg
 
 
@@ -116,8 +119,15 @@ def run_case(c):
     with np.errstate(all="ignore"):
         if smc:
             out = s.log_prob(z_in, c["beta"])
+            if c.get("memo"):
+                # the same batch is evaluated again (a kernel re-evaluates its current state; a schedule of temperatures is scanned):
+                # the values handed to the kernel the SECOND time are the ones that are checked
+                s.log_prob(z_in, min(1.0, c["beta"] * 0.5 + 0.1))
+                out = s.log_prob(z_in, c["beta"])
         else:
             out = s.log_prob(z_in)
+            if c.get("memo"):
+                out = s.log_prob(z_in)
     out = ns.to_np(out).reshape(-1)
     with np.errstate(all="ignore"):
         ll = target.like_np(x_pre)
